@@ -104,7 +104,7 @@ func exclFrom(l []string) excl {
 	return x
 }
 
-var defKinds = []string{"func", "funcstate", "funcchan", "funcsel", "funcrec", "compose", "method", "closure", "closurelit", "methodvalue", "factory", "instance"}
+var defKinds = []string{"func", "funcguard", "funcstate", "funcchan", "funcsel", "funcrec", "compose", "method", "closure", "closurelit", "methodvalue", "factory", "instance"}
 var cancelKinds = []string{"busy", "busy-lit", "busy-named", "count", "calldef", "recv", "send", "select", "hostblock", "expired"}
 
 const (
